@@ -152,6 +152,12 @@ def check(run):
     run_cases(run, w_history, cases)
     cases2 = [(name, n, run.seed, run.tier) for name in ("spinqn", "holstein", "spin2qn") for n in ((1, 2, 3, 4) if run.tier == "quick" else (1, 2, 3, 4, 5))]
     run_cases(run, w_constructors, cases2)
+    # operators whose sites were exchanged (on-the-fly swapping): their bond labels describe the re-ordered operator - the swap contract of props/C17 (label
+    # validity, labels stay integer arrays, operator re-ordered consistently) on spin+qn, vibronic and ab-initio models, with and without the Jordan-Wigner remap
+    from props import C17 as _c17
+    swap_cases = [("swap", fam, n, False, run.seed, run.tier) for fam, n in (("spinqn", 3), ("spinqn", 4), ("vibronic", 3))] + \
+                 [("swap", "qc_short", 4, jw, run.seed, run.tier) for jw in (False, True)]
+    run_cases(run, _c17.worker, swap_cases)
     from props import C06_tree
     C06_tree.check(run)
     run.rule = ("(a) random operation histories as in C13 with the sector clauses audited on every live object after every step (labels consistent with "
